@@ -525,6 +525,15 @@ def gen_scenario(rng, ops=None, force=None):
                 data[:, py, px] = 0
                 data[rng.randrange(T), py, px] = 1000 if np.dtype(dtype).itemsize > 1 else 1
         pattern = pattern + "+special"
+    # plateaus: neighbouring pixels with exactly the same series (water, desert, masks) -- what a
+    # "same as the pixel before" shortcut or state carried from pixel to pixel confuses (s52)
+    if op not in ("dekad",) and Y * X > 1 and rng.random() < 0.2:
+        for _ in range(rng.randint(1, 3)):
+            py, px = rng.randrange(Y), rng.randrange(X)
+            qy, qx = (py + 1, px) if rng.random() < 0.5 else (py, px + 1)
+            if qy < Y and qx < X:
+                data[:, qy, qx] = data[:, py, px]
+        pattern = pattern + "+plateau"
     # whole time steps without any valid observation (a block that holds only such steps must
     # behave like the same steps inside a larger block)
     if op not in ("dekad", "lroo", "croo") and rng.random() < 0.25:
